@@ -52,22 +52,23 @@ pub fn eval(cfg: &Cfg, input: &[u8], st: &mut Stats) -> Result<(), String> {
     let enc = guarded(|| encode_data(input, &list, None, modes, cfg.macros));
     let (cw, _size) = match enc {
         Ok(Ok(x)) => x,
-        Ok(Err(e)) => {
-            // the encoder refuses: then the planner must not have predicted a listed symbol for
+        other => {
+            let e: String = match other {
+                Ok(Err(e)) => format!("{:?}", e),
+                Err(p) => format!("panic: {}", p),
+                Ok(Ok(_)) => unreachable!(),
+            };
+            // the encoder refuses (or fails): then the planner must not have predicted a listed symbol for
             // a plan of its own ("the encoder never needs a larger symbol than predicted")
             st.count("not_encodable");
             let plan = guarded(|| encodation_plan(input, &list, modes)).map_err(|p| format!("encodation_plan: {}", p))?;
             if let Some(plan) = plan {
                 if let Some(cost) = plan_stats().chosen_cost {
                     if let Some(pred) = predicted_capacity(cfg, cost as usize) {
-                        return Err(format!("planner returns {:?} and predicts {} codewords -> capacity {}, but the encoder refuses the input ({:?})", &plan[..plan.len().min(6)], cost, pred, e));
+                        return Err(format!("planner returns {:?} and predicts {} codewords -> capacity {}, but the encoder does not encode the input ({})", &plan[..plan.len().min(6)], cost, pred, e));
                     }
                 }
             }
-            return Ok(());
-        }
-        Err(_) => {
-            st.count("encode_panicked_see_C11");
             return Ok(());
         }
     };
